@@ -144,6 +144,14 @@ def linen_vars_to_nnx_attrs(variables: tp.Mapping[str, Any]) -> dict[str, Any]:
   return dict(nnx_attrs)
 
 
+def _variable_type(x) -> type | None:
+  if isinstance(x, variablelib.Variable):
+    return type(x)
+  if isinstance(x, variablelib.VariableState):
+    return x.type
+  return None
+
+
 def nnx_attrs_to_linen_vars(nnx_attrs: dict) -> dict:
   """Convert a dict of NNX variables (or variable states) to Linen-style variables."""
   linen_structured = {}
@@ -156,6 +164,19 @@ def nnx_attrs_to_linen_vars(nnx_attrs: dict) -> dict:
       v = to_linen_var(v)
     elif isinstance(v, graph.NodeDef) or isinstance(v, graph.NodeRef):
       col_name = 'nnx'  # an nnx.GraphDef for some ToLinen submodule
+    elif (
+      type(v) in (tuple, list)
+      and v
+      and len({_variable_type(x) for x in v}) == 1
+      and _variable_type(v[0]) is not None
+    ):
+      # a sequence of variables of one type stored under one name, e.g. the
+      # tuple of values that Linen's `sow` keeps in 'intermediates'
+      col_name = variablelib.variable_name_from_type(_variable_type(v[0]))
+      v = type(v)(
+        to_linen_var(x.to_state() if isinstance(x, variablelib.Variable) else x)
+        for x in v
+      )
     else:
       raise ValueError(f'Cannot infer collection name from value: {v}')
     linen_structured[(col_name, *kp)] = v
